@@ -26,7 +26,7 @@ func c15concurrent(ctx *vc.Ctx) {
 	}
 	type prog struct {
 		name  string
-		calls []string // per thread: "sleep:<d>;<op>..." ops: prune(b) leave(b) dead(b) alive(b) dead(c) fl(c)
+		calls []string // per thread: "sleep:<d>;<op>..." ops: prune(x) leave(x) join(x) (intents) dead(x) alive(x) (memberlist notifications)
 	}
 	progs := []prog{
 		{"prune-leaving(b) || dead(b) during the wait", []string{"leave(b);prune(b)", "sleep:5ms;dead(b)"}},
@@ -34,6 +34,10 @@ func c15concurrent(ctx *vc.Ctx) {
 		{"prune-leaving(b) || dead(b);alive(b) during the wait", []string{"leave(b);prune(b)", "sleep:5ms;dead(b);alive(b)"}},
 		{"prune-leaving(b) || dead(c) and prune(c) during the wait", []string{"leave(b);prune(b)", "sleep:5ms;dead(c);prune(c)"}},
 		{"prune-failed(b) || alive(b)", []string{"dead(b);prune(b)", "alive(b)"}},
+		{"prune-alive(b) || dead(b) during the wait", []string{"prune(b)", "sleep:5ms;dead(b)"}},
+		{"prune-alive(b) || refuting join(b) during the wait", []string{"prune(b)", "sleep:5ms;join(b)"}},
+		{"prune-alive(b) || refuting join(b) then dead(b) during the wait", []string{"prune(b)", "sleep:5ms;join(b);dead(b)"}},
+		{"prune-alive(b) || dead(b) then alive(b) during the wait", []string{"prune(b)", "sleep:5ms;dead(b);alive(b)"}},
 	}
 	for _, p := range progs {
 		p := p
@@ -101,6 +105,9 @@ func c15concurrent(ctx *vc.Ctx) {
 				case "prune":
 					lt += 2
 					n.Delegate().NotifyMsg(serf.VEncode(serf.VMsgLeave, &serf.VMessageLeave{LTime: serf.LamportTime(lt), Node: who, Prune: true}))
+				case "join":
+					lt += 2
+					n.Delegate().NotifyMsg(serf.VEncode(serf.VMsgJoin, &serf.VMessageJoin{LTime: serf.LamportTime(lt), Node: who}))
 				case "dead":
 					n.Events().NotifyLeave(n.MLNode(who, idx[who], nil))
 				case "alive":
